@@ -198,6 +198,26 @@ func simC16(c *sim.Ctx) {
 		steps := 0
 		idleAdvance := 0
 		var afterCancel *item // what the read in progress at cancellation will return
+		fill := channel && ch != nil && c.Chance(25)
+		if fill {
+			// back-pressure: nobody consumes until all 1000 slots of the channel
+			// are taken and the reader blocks on the 1001st packet
+			for k := 0; k < 1001; k++ {
+				b.Settle()
+				if !st.pending {
+					c.Fail("backpressure", "reader-stopped-reading", "packetsToChannel", "with %d packets queued and no consumer the reader is not reading", k)
+				}
+				it := item{data: []byte{byte(k), byte(k >> 8), 7}, ci: gopacket.CaptureInfo{Timestamp: time.Unix(1_700_000_000+int64(k), 0).UTC(), CaptureLength: 3, Length: 3}}
+				sent = append(sent, it)
+				st.feed <- it
+			}
+			b.Settle()
+			if st.pending {
+				c.Fail("backpressure", "read-while-channel-full", "packetsToChannel", "1001 packets were read with no consumer and the reader asks for more (a packet was dropped or the channel is larger than documented)")
+			}
+			c.Fault("channel_filled")
+			c.Probe("channel_full_backpressure")
+		}
 		for steps < 300 && !cancelled {
 			steps++
 			b.Settle()
@@ -285,6 +305,9 @@ func simC16(c *sim.Ctx) {
 				c.Fault("context_cancelled")
 				cancelled = true
 				sentBeforeCancel = len(sent)
+				if fill && sentBeforeCancel > 0 {
+					sentBeforeCancel-- // the packet blocked on the full channel is in flight too
+				}
 				if st.pending {
 					c.Probe("cancel_during_read")
 					// Drawn now: whether a packet returned by that read is still
@@ -309,7 +332,11 @@ func simC16(c *sim.Ctx) {
 				d := time.Duration(1+c.Draw(10)) * time.Millisecond
 				time.Sleep(d)
 				c.Advance(d)
-				idleAdvance++
+				if len(en) == 1 {
+					idleAdvance++
+				} else {
+					idleAdvance = 0
+				}
 				if idleAdvance > 100 {
 					c.Fail("liveness", "no-progress", "PacketSource", "nothing is enabled but the clock: the run cannot finish")
 				}
@@ -353,7 +380,7 @@ func simC16(c *sim.Ctx) {
 				}
 			}
 			// drain
-			for k := 0; k < 1200 && !closed; k++ {
+			for k := 0; k < 2400 && !closed; k++ {
 				b.Settle()
 				if consumer.InCall() {
 					// blocked on an empty, unclosed channel
